@@ -28,3 +28,16 @@ Definition partial_ok (x : row) : bool :=
 Definition shard_ok (l : list row) : bool := forallb (fun x => strict_ok x || partial_ok x) l.
 Definition strict_failures (l : list row) : list N :=
   map row_idx (filter (fun x => negb (strict_ok x)) l).
+
+(* extractors that fail even the partial check: there must be none (Gen/ExtractorsOk_NN.v) *)
+Definition partial_failures (l : list row) : list N :=
+  map row_idx (filter (fun x => negb (strict_ok x || partial_ok x)) l).
+
+Lemma partial_failures_nil (l : list row) : partial_failures l = [] -> shard_ok l = true.
+Proof.
+  unfold partial_failures, shard_ok.
+  induction l as [|x l IH]; cbn [filter map forallb]; intros H; [reflexivity|].
+  destruct (strict_ok x || partial_ok x) eqn:E; cbn [negb] in H.
+  - cbn [andb]. apply IH. exact H.
+  - cbn [map] in H. discriminate H.
+Qed.
